@@ -274,7 +274,7 @@ def prove_relies_on(src_root, ex: Explorer, which):
     if which == 'race':
         from contracts import C11
         C11.prove_race(src_root, ex)
-        pre, new_ = 'C11.race', 'C06.final.no-connection-later.race'
+        pre, new_ = 'C11.', 'C06.final.no-connection-later.'
     else:
         from contracts import C08
         C08.prove_evaluate(src_root, ex)
@@ -297,6 +297,8 @@ def run_item(src_root, item, tier):
         if kind == 'relies':
             prove_relies_on(src_root, ex, arg)
             collect(res, ex)
+            res.functions.update(['network.network:Network._create_peer_connection_race'] if arg == 'race' else
+                                 ['transfer.manager:TransferManager._evaluate_aborted_state', 'transfer.manager:TransferManager.manage_shares_changed'])
             return res
         {'slot': prove_slot_selection, 'assigns': prove_manage_assigns, 'callbacks': prove_done_callbacks, 'cancel': prove_cancel_all,
          'queue_remotely': prove_queue_remotely, 'request_site': prove_transfer_request_site, 'remove': prove_remove,
